@@ -264,6 +264,9 @@ static int hb_push_ref(enum pq_mode m, struct aws_priority_queue *q) {
 #elif defined(VERIF_PQ_HANDLES_APPEAR)
     __CPROVER_assume(bp != NULL && q->container.alloc != NULL); /* the call creates the handle array */
 #endif
+#ifdef VERIF_PQ_NO_GROWTH /* 136-byte units that do not fit into memory otherwise: the element storage does not have to grow */
+    __CPROVER_assume(!(q->container.alloc != NULL && PQ_FULL(q)));
+#endif
     PQ_C_push(PQ_ASSUME, PQ_SKIP, q, in, bp, r)
     r = aws_priority_queue_push_ref(q, in, bp);
     PQ_CALLED();
